@@ -113,6 +113,24 @@ func main() {
 			}
 			obls = append(obls, vc.obls...)
 		}
+		for _, rp := range w.refinementPairs() {
+			name := "refine:" + rp.implKey + "<:" + rp.ifaceKey
+			match := len(args) == 1
+			for _, a := range args[1:minInt(2, len(args))] {
+				if strings.Contains(name, a) {
+					match = true
+				}
+			}
+			if !match {
+				continue
+			}
+			vc, err := w.verifyRefinement(rp)
+			if err != nil {
+				fmt.Printf("GENERROR %v\n", err)
+				continue
+			}
+			obls = append(obls, vc.obls...)
+		}
 		for _, d := range w.lemmas() {
 			match := len(args) == 1
 			for _, a := range args[1:minInt(2, len(args))] {
